@@ -22,6 +22,9 @@ type c09Cfg struct {
 	MaxL  int  `json:"max_len"`
 	// Sparse: two grouping columns where a column may be missing: (a,a), (a,missing), (missing,a)
 	Sparse bool `json:"sparse_keys,omitempty"`
+	// Mixed: one key value arrives as text and as a number with the same spelling ("7", 7); whether these are one
+	// key or two is not fixed by the property, but the windowing and the aggregation must agree on it
+	Mixed bool `json:"mixed_spelling,omitempty"`
 	// GapMs: virtual time slept after every row (the default configuration never reaps key state, whatever the pauses)
 	GapMs int `json:"gap_ms,omitempty"`
 	// TTL: WITH (STATETTL=...) ; sequences in which some key stays idle for TTL or longer are outside the property and skipped
@@ -48,6 +51,7 @@ func c09Configs(tier string) []c09Cfg {
 		for _, eager := range []bool{false, true} {
 			out = append(out, c09Cfg{N: n, Cols: 2, Eager: eager, MaxL: maxL, Sparse: true})
 		}
+		out = append(out, c09Cfg{N: n, Cols: 1, Eager: true, MaxL: maxL - 1, Mixed: true})
 		out = append(out, c09Cfg{N: n, Cols: 1, Eager: true, MaxL: maxL - 1, GapMs: 1500})
 		out = append(out, c09Cfg{N: n, Cols: 1, Eager: true, MaxL: maxL - 1, GapMs: 1500, TTL: "1m"})
 		out = append(out, c09Cfg{N: n, Cols: 1, Eager: true, MaxL: maxL - 1, GapMs: 25000, TTL: "1m"})
@@ -79,6 +83,7 @@ func growthStrings(maxL, k int, f func([]int)) {
 
 var c09Keys1 = []Row{{"k": "a"}, {"k": "b"}, {"k": "c"}}
 var c09Keys2 = []Row{{"k": "a", "k2": "x"}, {"k": "a", "k2": "y"}, {"k": "b", "k2": "x"}}
+var c09KeysMixed = []Row{{"k": "7"}, {"k": 7}, {"k": "b"}}
 var c09KeysSparse = []Row{{"k": "a", "k2": "a"}, {"k": "a"}, {"k2": "a"}}
 
 // c09InScope: with a STATETTL the property only speaks about runs in which no key is reaped, i.e. no
@@ -114,6 +119,9 @@ func c09SQL(cfg c09Cfg) string {
 }
 
 func c09Keys(cfg c09Cfg) []Row {
+	if cfg.Mixed {
+		return c09KeysMixed
+	}
 	if cfg.Sparse {
 		return c09KeysSparse
 	}
@@ -139,6 +147,32 @@ func c09Expected(seq []int, n int) map[int][][]int {
 
 // c09Compare checks the delivered batches against the per-key reference.
 func c09Compare(cfg c09Cfg, seq []int, batches []Batch) (kind, what string) {
+	if cfg.Mixed {
+		// reading 1: "7" and 7 are two keys; reading 2: they are one key
+		kind, what = c09CompareMapped(cfg, seq, batches, nil)
+		if kind == "" {
+			return "", ""
+		}
+		if k2, _ := c09CompareMapped(cfg, seq, batches, map[int]int{1: 0}); k2 == "" {
+			return "", ""
+		}
+		return kind, what + " (and no better if \"7\" and 7 are read as one key)"
+	}
+	return c09CompareMapped(cfg, seq, batches, nil)
+}
+
+// c09CompareMapped: merge maps key indexes onto the index of the key they are considered equal to.
+func c09CompareMapped(cfg c09Cfg, seq []int, batches []Batch, merge map[int]int) (kind, what string) {
+	if merge != nil {
+		ms := make([]int, len(seq))
+		for i, x := range seq {
+			ms[i] = x
+			if y, ok := merge[x]; ok {
+				ms[i] = y
+			}
+		}
+		seq = ms
+	}
 	keys := c09Keys(cfg)
 	exp := c09Expected(seq, cfg.N)
 	got := map[int][][]int{}
@@ -148,6 +182,9 @@ func c09Compare(cfg c09Cfg, seq []int, batches []Batch) (kind, what string) {
 			for i, k := range keys {
 				if r["k"] == k["k"] && (cfg.Cols == 1 || r["k2"] == k["k2"]) {
 					ki = i
+					if y, ok := merge[i]; ok {
+						ki = y
+					}
 				}
 			}
 			if ki < 0 {
